@@ -250,6 +250,18 @@ func findDpCase(wide bool) func(c *ev.Case) {
 		if multi {
 			c.Add("fd_instances_with_equal_sums", 1)
 		}
+		seenV := map[int]int{}
+		for _, it := range items {
+			if it.V > maxValue {
+				c.Add("fd_items_above_max", 1) // "items heavier than the limit"
+			}
+			seenV[it.V]++
+		}
+		for _, k := range seenV {
+			if k > 1 {
+				c.Add("fd_equal_value_groups", 1)
+			}
+		}
 		c.Max("fd_max_items", int64(n))
 		c.Max("fd_max_maxValue", int64(maxValue))
 
